@@ -106,6 +106,37 @@ int main(int argc, char **argv)
 			if (len > 0) vf_nontrivial(vf_mix(fam, ((uint64_t) len << 8) | al));
 			vf_outcome(want);
 		}
+	} else if (!strcmp(VF.space, "long")) {
+		/* lengths around 2^16, 2^17, 2^20 and 2^24: whole, and split at boundary points, two alignments */
+		static const size_t lens[] = { 65534, 65535, 65536, 65537, 65538, 131071, 131072, 131073, 1048575, 1048576, 1048577, 16777215, 16777216, 16777217 };
+		unsigned li, al, si;
+		uint8_t *store = malloc((1u << 24) + 64);
+		size_t i;
+		for (i = 0; i < (1u << 24) + 64; ++i) store[i] = family_byte(3, i);
+		for (li = 0; li < sizeof lens / sizeof *lens; ++li)
+		for (al = 0; al < 2; ++al) {
+			size_t L = lens[li];
+			uint8_t *buf = store + 16 + al;
+			size_t splits[8] = { 0, 1, 65535, 65536, L / 2, L - 65536, L - 1, L };
+			uint16_t want, c;
+			if (!VF.thorough && L > 2000000) continue;
+			if (!vf_case("long buffer len=%zu align=%u whole and 8 split points", L, al)) continue;
+			want = ref_crc16(0x1D0F, buf, L);
+			c = 0x1D0F;
+			lha_crc16_buf(&c, buf, L);
+			vf_step(vf_mix(c, L));
+			if (c != want) vf_viol("crc-long", "len=%zu align=%u whole: got=%04x want=%04x", L, al, c, want);
+			for (si = 0; si < 8; ++si) {
+				c = 0x1D0F;
+				lha_crc16_buf(&c, buf, splits[si]);
+				lha_crc16_buf(&c, buf + splits[si], L - splits[si]);
+				vf_step(vf_mix(c, L * 8 + si));
+				if (c != want) vf_viol("crc-long-split", "len=%zu align=%u split=%zu: got=%04x want=%04x", L, al, splits[si], c, want);
+			}
+			vf_nontrivial(vf_mix(L, al));
+			vf_outcome(want);
+		}
+		free(store);
 	} else {
 		fprintf(stderr, "unknown space %s\n", VF.space);
 		return 2;
